@@ -28,6 +28,34 @@ from ..fsmodel import StoreModel, show, mentions_sym
 PROP = "C04"
 
 
+def _presence_filtered(ctx: Ctx, top: Func, fl, arg: ast.Name, req: ast.Name) -> bool:
+    """`arg` is defined once, as the (path, key) pairs of the evaluation's path map `req` whose key satisfies store.has_blob(key) - and nothing else"""
+    ds = fl.defs_of_use(arg)
+    if len(ds) != 1 or ds[0].value is None:
+        return False
+    v = ds[0].value
+    if isinstance(v, ast.Call) and unparse(v.func).split(".")[-1] in ("OrderedDict", "dict") and len(v.args) == 1 and not v.keywords:
+        v = v.args[0]
+    if not isinstance(v, (ast.ListComp, ast.GeneratorExp, ast.DictComp)) or len(v.generators) != 1:
+        return False
+    g = v.generators[0]
+    it = g.iter
+    if not (isinstance(it, ast.Call) and isinstance(it.func, ast.Attribute) and it.func.attr == "items" and isinstance(it.func.value, ast.Name)
+            and set(fl.root_defs(it.func.value)) == set(fl.root_defs(req))):
+        return False
+    if not (isinstance(g.target, (ast.Tuple, ast.List)) and len(g.target.elts) == 2 and all(isinstance(x, ast.Name) for x in g.target.elts)):
+        return False
+    pv, kv = g.target.elts[0].id, g.target.elts[1].id
+    if isinstance(v, ast.DictComp):
+        same = isinstance(v.key, ast.Name) and v.key.id == pv and isinstance(v.value, ast.Name) and v.value.id == kv
+    else:
+        same = isinstance(v.elt, ast.Tuple) and len(v.elt.elts) == 2 and [getattr(x, "id", None) for x in v.elt.elts] == [pv, kv]
+    if not same or len(g.ifs) != 1:
+        return False
+    t = g.ifs[0]
+    return isinstance(t, ast.Call) and isinstance(t.func, ast.Attribute) and t.func.attr == "has_blob" and len(t.args) == 1 and isinstance(t.args[0], ast.Name) and t.args[0].id == kv
+
+
 def commit_rules(ctx: Ctx, top: Func, rule: str) -> None:
     rep = ctx.report
     prog = ctx.prog
@@ -55,6 +83,13 @@ def commit_rules(ctx: Ctx, top: Func, rule: str) -> None:
         if req is None or arg is None:
             rep.unknown(rule, top.qname, "cannot find the requested_paths assignment / the sync_paths argument", top.loc(sc))
         elif isinstance(req, ast.Name) and isinstance(arg, ast.Name) and set(fl.root_defs(req)) == set(fl.root_defs(arg)):
+            # the whole static map, unfiltered: a keep the evaluation did not reach (under a false condition) is committed to a key whose blob was never written
+            rep.bad(rule, top.qname, "the committed mapping is the evaluation's path map restricted to the keys whose blob is in the store", top.loc(sc),
+                    [f"{top.loc(sc)}: `{unparse(sc, 60)}` commits every path found by the analysis, whether or not its keep ran",
+                     "history: /p is committed; the code of its producer is edited and the nested dds.keep('/p', ..) now sits under a condition that is false: the evaluation runs no keep for /p, "
+                     "yet /p is linked to the new key (no blob): the path that the evaluation did not keep loses its previous content (dds.load fails)"], "static-map-committed",
+                    what="paths whose keep did not run are committed to a key that has no blob: their previous content is lost")
+        elif isinstance(req, ast.Name) and isinstance(arg, ast.Name) and _presence_filtered(ctx, top, fl, arg, req):
             sl = ctx.slicer(follow_calls=False).slice(top, arg)
             asp = sl.find(lambda f_, n_: isinstance(n_, ast.Call) and (prog.dotted(f_, n_.func) or "").endswith("all_store_paths"))
             if asp is None:
